@@ -63,10 +63,15 @@ Print Assumptions C11_B2_for_bounds_refuted.
 (* a.lua: local a = 0\nlocal a, b = 1, a\nuse(a)\n *)
 Definition w_B3_multi_local : list (list N * list N) :=
   [([97; 46; 108; 117; 97], [108; 111; 99; 97; 108; 32; 97; 32; 61; 32; 48; 10; 108; 111; 99; 97; 108; 32; 97; 44; 32; 98; 32; 61; 32; 49; 44; 32; 97; 10; 117; 115; 101; 40; 97; 41; 10])].
-(* `local a, b = e1, e2` adds a BEFORE visiting e2: a use of a in e2 is bound to the new a by the traversal (references/rename/highlight of either a are wrong) and by the position resolver *)
-Theorem C11_B3_multi_local_refuted : refs_deviates MRename w_B3_multi_local [97; 46; 108; 117; 97] 0 6 = true.
+(* B3, FIXED (fixes/C07-multi-local-order.diff): `local a, b = e1, e2` added a BEFORE visiting e2: a use of a in e2 was bound
+   to the new a by the traversal (references/rename/highlight of either a were wrong).  The witness deviates for the
+   code before the repair (`no_fixes`) and no longer for the code now in /repo. *)
+Theorem C11_B3_multi_local_refuted_before_fix : refs_deviates_fx no_fixes w_B3_multi_local MRename [97; 46; 108; 117; 97] 0 6 = true.
 Proof. vm_compute. reflexivity. Qed.
-Print Assumptions C11_B3_multi_local_refuted.
+Print Assumptions C11_B3_multi_local_refuted_before_fix.
+Theorem C11_B3_multi_local_fixed : refs_deviates MRename w_B3_multi_local [97; 46; 108; 117; 97] 0 6 = false.
+Proof. vm_compute. reflexivity. Qed.
+Print Assumptions C11_B3_multi_local_fixed.
 
 (* a.lua: local abc = 1\ndo local abc function abc() end end\nuse(abc)\n *)
 Definition w_B4_forward_decl : list (list N * list N) :=
